@@ -37,3 +37,54 @@ func VerifC04Options(n int) {
 	}
 	verifReach("end")
 }
+
+// VerifC04Header: 240 header bytes of which one part is symbolic (which = 0: bytes 0..43, i.e. all
+// scalar fields, addresses, hlen 0..255 and chaddr; 1: the 64 server-name bytes; 2: the 128 boot-file
+// bytes; 3: the magic cookie), followed by an End option.  Acceptance and every decoded field are
+// compared with the RFC 2131 reading of the same bytes.
+func VerifC04Header(which int) {
+	b := verifValidPrefix()
+	switch which {
+	case 0:
+		copy(b[0:44], verifBytes("hdr", 44))
+	case 1:
+		copy(b[44:108], verifBytes("sname", 64))
+	case 2:
+		copy(b[108:236], verifBytes("file", 128))
+	default:
+		copy(b[236:240], verifBytes("cookie", 4))
+	}
+	b = append(b, 255)
+	h, _ := refParseHeader(b)
+	p, err := FromBytes(b)
+	verifAssert((err == nil) == h.cookieOK, "accept-iff-magic-cookie")
+	verifObserveInt("accepted", verifB2I(err == nil))
+	if err == nil {
+		verifAssert(uint8(p.OpCode) == h.op, "opcode")
+		verifAssert(uint16(p.HWType) == uint16(h.htype), "htype")
+		verifAssert(p.HopCount == h.hops, "hops")
+		verifAssert(verifSame(p.TransactionID[:], h.xid[:]), "xid")
+		verifAssert(p.NumSeconds == h.secs, "secs")
+		verifAssert(p.Flags == h.flags, "flags")
+		verifAssert(verifSame(p.ClientIPAddr, h.ci[:]), "ciaddr")
+		verifAssert(verifSame(p.YourIPAddr, h.yi[:]), "yiaddr")
+		verifAssert(verifSame(p.ServerIPAddr, h.si[:]), "siaddr")
+		verifAssert(verifSame(p.GatewayIPAddr, h.gi[:]), "giaddr")
+		verifAssert(verifSame(p.ClientHWAddr, h.chaddr), "chaddr-clipped-to-min-hlen-16")
+		verifAssert(verifSame([]byte(p.ServerHostName), h.sname), "sname-cut-at-first-nul")
+		verifAssert(verifSame([]byte(p.BootFileName), h.file), "file-cut-at-first-nul")
+		verifAssert(len(p.Options) == 0, "no-options")
+	}
+	verifReach("end")
+}
+
+// VerifC04Truncated: every total length n < 240 (header bytes 0..43 symbolic, rest zero, cookie
+// bytes present as far as they fit) is rejected; n = 240 exactly (no options area) is accepted.
+func VerifC04Truncated(n int) {
+	full := verifValidPrefix()
+	copy(full[0:44], verifBytes("hdr", 44))
+	b := full[:n]
+	_, err := FromBytes(b)
+	verifAssert((err == nil) == (n >= 240), "accept-iff-header-and-cookie-complete")
+	verifReach("end")
+}
